@@ -8,6 +8,7 @@ import (
 	"fmt"
 	"io"
 	"net/http"
+	"reflect"
 	"strings"
 
 	"verif/sim/harness"
@@ -201,7 +202,13 @@ func byzantineClient(c *harness.Ctx, call *Call) {
 		req.Body = io.NopCloser(bytes.NewReader(out))
 		req.ContentLength = int64(len(out))
 		req.GetBody = nil
-		e.Faults = append(e.Faults, "byzantine-client:"+strings.Join(path, "/"))
+		tag := "byzantine-client:" + strings.Join(path, "/")
+		if viaDelete && strings.Contains(string(out), `"$delete"`) && !deletable(call, path) {
+			// the leaf is a required field: no client can ask for its deletion, and a server may either refuse the
+			// patch or - as the root module does - drop the meaningless entry; told apart in the signature
+			tag += ":delete-of-required-field"
+		}
+		e.Faults = append(e.Faults, tag)
 		c.Fault("byzantine-client")
 		call.byzClient = true
 	}
@@ -320,7 +327,11 @@ func checkByzantineClient(c *harness.Ctx, call *Call, where string) bool {
 	e := call.Exchanges[0]
 	_, _, _, body := parseWire(e.ReqBytes)
 	if len(call.Inv) > 0 {
-		c.Fail("C07", "excluded-accepted", "excluded-accepted:"+call.Method+":"+strings.TrimPrefix(e.Faults[len(e.Faults)-1], "byzantine-client:"), "%s: a request carrying a value at an excluded path (%v) reached the resource; body %s", where, e.Faults, clip(body, 400))
+		sig := "excluded-accepted:" + call.Method + ":" + strings.TrimPrefix(e.Faults[len(e.Faults)-1], "byzantine-client:")
+		if strings.HasSuffix(sig, ":delete-of-required-field") {
+			sig = "excluded-accepted:delete-of-required-field"
+		}
+		c.Fail("C07", "excluded-accepted", sig, "%s: a request carrying a value at an excluded path (%v) reached the resource; body %s", where, e.Faults, clip(body, 400))
 		return true
 	}
 	if e.Status != 400 {
@@ -328,5 +339,45 @@ func checkByzantineClient(c *harness.Ctx, call *Call, where string) bool {
 		return true
 	}
 	c.Probe("byzantine-client-refused")
+	return true
+}
+
+// deletable: does the generated partial-update type of the call's entity let the field at path be deleted (is it
+// optional or defaulted)? Walks the nested *_PartialUpdate structs by field name.
+func deletable(call *Call, path []string) bool {
+	var t reflect.Type
+	for _, a := range call.Args {
+		at := a.Type()
+		if at.Kind() == reflect.Map {
+			at = at.Elem()
+		}
+		if at.Kind() == reflect.Ptr && strings.HasSuffix(at.Elem().Name(), "_PartialUpdate") {
+			t = at.Elem()
+		}
+	}
+	if t == nil {
+		return true
+	}
+	title := func(s string) string {
+		if s == "" {
+			return s
+		}
+		return strings.ToUpper(s[:1]) + s[1:]
+	}
+	for i, seg := range path {
+		if i == len(path)-1 {
+			df, ok := t.FieldByName("Delete_Fields")
+			if !ok {
+				return true
+			}
+			_, has := df.Type.FieldByName(title(seg))
+			return has
+		}
+		f, ok := t.FieldByName(title(seg))
+		if !ok || f.Type.Kind() != reflect.Ptr || !strings.HasSuffix(f.Type.Elem().Name(), "_PartialUpdate") {
+			return true
+		}
+		t = f.Type.Elem()
+	}
 	return true
 }
